@@ -31,7 +31,7 @@ TIMEOUT = {"quick": 1500, "thorough": 7200}
 RULE = (
     "scenario = (n inputs, use_backups, batch_size, up to 3 special inputs each with an original outcome from {fast ok, "
     "fast error, early-straggle error, straggle ok, straggle error} and a backup outcome from {ok/error} x {soon, late, "
-    "simultaneous with the original} x {handled before/after the original}); n in {1,2,3,10,11,12,13,25} and, in 2% of the sampled scenarios, {1001,1100,1700,2600}; batch_size in "
+    "simultaneous with the original} x {handled before/after the original}); n in {0,1,2,3,10,11,12,13,25} and, in 2% of the sampled scenarios, {1001,1100,1700,2600}; batch_size in "
     "{None,1,4,n-1,n,n+3}. Quick enumerates all single-special scenarios and samples the rest; thorough enumerates all "
     "pairs. Non-trivial = at least one failure or straggler in the script; distinct by hash of the scenario. Part (B): "
     "retries in {0,1,2} x k failures in {0..3}"
@@ -180,6 +180,10 @@ def batch_sizes(n):
 
 
 def single_special_scenarios():
+    # nothing to map over: the map has to finish at once, with or without batching
+    for ub in (False, True):
+        for bs in (1, 4, None):
+            yield {"n": 0, "use_backups": ub, "batch_size": bs, "special": {}}
     for n in (1, 2, 3, 10, 11, 12, 13, 25):
         for ub in (False, True):
             for bs in batch_sizes(n):
